@@ -348,6 +348,22 @@ def check_elan(ctx, case):
         ctx.observe("elan_reference_tier", True)
     eaf.remove_tier("default")
     eaf.to_file(path)
+    zero = case.get("zero_length")
+    if zero is not None and all_tiers and len(all_tiers[0][1]) >= 2:
+        # an annotation drawn with a click instead of a drag (start == end), in the middle of the first tier: written by editing
+        # the file's time slots (pympi's own API refuses it).  The reader may refuse the file (ValueError) or import every
+        # annotation of positive length - it may not return quietly with other annotations missing
+        import re as _re
+        name0, anns0 = all_tiers[0]
+        victim = anns0[min(zero, len(anns0) - 2)]
+        text = open(path, encoding="utf-8").read()
+        m = _re.search(r'<TIME_SLOT TIME_SLOT_ID="(ts\d+)" TIME_VALUE="%d"' % int(victim[1]), text)
+        if m and text.count('TIME_VALUE="%d"' % int(victim[1])) == 1:       # (only when that end time belongs to this annotation alone)
+            text = text.replace(m.group(0), '<TIME_SLOT TIME_SLOT_ID="%s" TIME_VALUE="%d"' % (m.group(1), int(victim[0])), 1)
+            open(path, "w", encoding="utf-8").write(text)
+            all_tiers[0] = [name0, [a for a in anns0 if a is not victim]]
+            case = dict(case, _zero_written=True)
+            ctx.observe("elan_zero_length_annotation", True)
     prepare, extra, selections = _history(case, [n for n, _ in all_tiers])
     ctx.observe("import_history", str(case.get("prior")))
     try:
@@ -369,7 +385,10 @@ def check_elan(ctx, case):
                                                              "tier_as_label": tier_as_label, "selected": selections, "prior": case.get("prior")},
                          monitor="M-ELAN")
     except Exception as e:
-        ctx.fail_exc(f"elan-read-raises:{type(e).__name__}", e, monitor="M-ELAN")
+        if case.get("_zero_written") and isinstance(e, ValueError):
+            ctx.observe("elan_zero_length_annotation", "refused:ValueError")
+        else:
+            ctx.fail_exc(f"elan-read-raises:{type(e).__name__}", e, monitor="M-ELAN")
     finally:
         for p in (path, path + ".bak"):
             if os.path.exists(p):
@@ -398,7 +417,7 @@ def gen_elan(rng):
             t = pa[-1][1] + rng.randrange(0, 500)
         ref = {"name": "gloss", "parent": "ref-parent", "parent_anns": pa,
                "refs": [[k, rng.choice(["G", "gl oss", "x"])] for k in range(len(pa)) if rng.random() < 0.7]}
-    return {"kind": "elan", "tiers": tiers, "selected": sel, "ref_tier": ref,
+    return {"kind": "elan", "tiers": tiers, "selected": sel, "ref_tier": ref, "zero_length": rng.choice([None, None, None, 0, 1, 2]),
             "label_mode_order": rng.choice([[False, True], [True, False], [True, False, True]]),
             "prior": rng.choice([None, None, "registered", "units", "other-annotator", "twice"])}
 
